@@ -20,7 +20,7 @@ ASSUMPTIONS = [
     'handler tables are read through the internal names _handlers/_globals/_tasks (inconclusive if they disappear)',
     'a generator handler that yields None right after catching TimeoutError is not generated',
 ]
-REQUIRED = ['callee_on_explicit_channel', 'callee_with_success_channels', 'falsy_value_after_call', 'call_by_object', 'wait_by_object', 'wait_by_name', 'nested_call', 'sequential_calls', 'callee_raises_plain',
+REQUIRED = ['several_handlers_waiting_for_one_event_instance', 'callee_on_explicit_channel', 'callee_with_success_channels', 'falsy_value_after_call', 'call_by_object', 'wait_by_object', 'wait_by_name', 'nested_call', 'sequential_calls', 'callee_raises_plain',
             'callee_generator_raises_first_step', 'callee_generator_raises_after_yield', 'callee_multi_handler', 'timeout_expired',
             'timeout_not_expired', 'timeout_zero', 'roots_in_flight_2plus', 'same_event_type_called_concurrently']
 REQUIRED_OBLIGATIONS = ['RESUME_ONCE', 'RESULT', 'AFTER_CALLEE', 'TIMEOUT_NOT_EARLY', 'CALLER_FEEDBACK', 'CALLER_VALUE', 'RESIDUE']
@@ -109,6 +109,9 @@ def evaluate(case, w, norm, before, after, comps):
                 elif any(a[0] in ('yield', 'call', 'wait', 'sleep') for a in body[:body.index(['raise'])]):
                     marks.add('callee_generator_raises_after_yield')
                 feat.add('failing')
+        if w.events[cu].get('waiters', 1) >= 2:
+            marks.add('several_handlers_waiting_for_one_event_instance')
+            feat.add('shared')
         got = rx.get((uid, hid, step + 1, cu), [])
         counts['RESUME_ONCE'] += 1
         detail = {'caller_event': uid, 'handler': hid, 'step': step, 'callee_event': cu, 'callee_name': cname, 'kind': kind,
@@ -266,6 +269,25 @@ def corpus():
                                                   HD(2, 'a2', [['yield', None], ['call', E('s')], ['ret', 'end2']], gen=True), slow,
                                                   HD(3, 'b', [['yield', 'b']], gen=True)],
                'fires': [E('a', flags=SF), E('a2', flags=SF), E('a', flags=SF), E('a2')]})
+    # several suspended handlers waiting for the very same event instance: each of them is resumed, once, with its result
+    slowb = HD(8, 'sh', [['yield', 'p1'], ['yield', None], ['ret', 'p2']], gen=True)
+    for kinds in (('wait', 'wait', 'wait'), ('call', 'wait', 'wait'), ('waitname', 'waitname'), ('call', 'waitname', 'wait'), ('wait', 'call', 'wait', 'call')):
+        for tail, tname in (([slowb], 'slow'), ([HD(8, 'sh', [['ret', 'q']])], 'plain'), ([HD(8, 'sh', [['yield', 'v'], ['raise']], gen=True), HD(9, 'sh', [['ret', 'ok']], prio=1)], 'failing')):
+            hs = [HD(i + 1, 'w%d' % i, [[k, E('sh', share='S')], ['yield', 'after'], ['ret', 'end%d' % i]], gen=True) for i, k in enumerate(kinds)]
+            cs.append({'name': 'shared-%s-%s' % ('-'.join(kinds), tname), 'handlers': hs + tail, 'fires': [E('w%d' % i, flags=SF) for i in range(len(kinds))]})
+    # ... the same handler invoked for three events; a waiter with a timeout among them; a nested caller among them
+    cs.append({'name': 'shared-same-handler', 'handlers': [HD(1, 'w', [['wait', E('sh', share='S')], ['ret', 'end']], gen=True), slowb],
+               'fires': [E('w', flags=SF)] * 3})
+    for t in (0, 2, 30):
+        cs.append({'name': 'shared-timeout-%d' % t, 'handlers': [HD(1, 'w0', [['call', E('sh', share='S')], ['ret', 'e0']], gen=True),
+                                                                HD(2, 'w1', [['wait', E('sh', share='S'), {'timeout': t}], ['ret', 'e1']], gen=True),
+                                                                HD(3, 'w2', [['wait', E('sh', share='S')], ['ret', 'e2']], gen=True), slowb],
+                   'fires': [E('w0', flags=SF), E('w1', flags=SF), E('w2', flags=SF)]})
+    cs.append({'name': 'shared-nested', 'handlers': [HD(1, 'top', [['call', E('w0')], ['ret', 'top']], gen=True),
+                                                     HD(2, 'w0', [['wait', E('sh', share='S')], ['ret', 'e0']], gen=True),
+                                                     HD(3, 'w1', [['wait', E('sh', share='S')], ['call', E('sh', share='T')], ['ret', 'e1']], gen=True),
+                                                     HD(4, 'w2', [['yield', None], ['wait', E('sh', share='T')], ['ret', 'e2']], gen=True), slowb],
+               'fires': [E('w1', flags=SF), E('w2', flags=SF), E('top', flags=SF)]})
     return cs
 
 
@@ -336,6 +358,23 @@ def gen_case(rng):
                     a[1]['success_channels'] = ['elsewhere']
                     if rng.random() < 0.5:
                         a[1].setdefault('flags', {})['success'] = True
+    # a group of roots that all wait for one instance of an event (the first of them to run fires it)
+    if rng.random() < 0.3:
+        target = rng.choice([nm for lv in names for nm in names[lv] if nm not in seen] or ['shx'])
+        if target == 'shx':
+            hid += 1
+            handlers.append(HD(hid, 'shx', [['yield', 'p']] * rng.randint(0, 3) + [['ret', 'q']], gen=True))
+        for i in range(rng.randint(2, 4)):
+            hid += 1
+            rn = 'g%d' % i
+            pre = [['yield', None]] if rng.random() < 0.15 else []
+            opts = {'timeout': rng.choice([0, 1, 3, 30])} if rng.random() < 0.2 else {}
+            spec = {'name': target, 'share': 'G'}
+            if target in on_chan:
+                spec['channels'] = ['a']
+            handlers.append(HD(hid, rn, pre + [[rng.choice(['wait', 'wait', 'call']), spec, opts]] + ([['yield', 'y']] if rng.random() < 0.4 else [])
+                               + ([['ret', 'g']] if rng.random() < 0.6 else []), gen=True))
+            roots.append(rn)
     fires = [{'name': rn, 'flags': {f: rng.random() < 0.6 for f in ('success', 'complete')}} for rn in roots]
     # names waited by name must not be fired by anybody else while the wait is open: drop plain fires/calls of them
     for h in handlers:
